@@ -224,6 +224,12 @@ class _Tok:
     def __init__(self, name, truthy=True):
         self.name, self._truthy = name, truthy
 
+    def __getattr__(self, attr):
+        if attr.startswith('__'):
+            raise AttributeError(attr)
+        from pyvc.values import ModelAttributeError
+        raise ModelAttributeError('the node token of the C15 sidecar has no attribute %r' % attr)
+
     def __bool__(self):
         return truth(self._truthy)
 
@@ -244,6 +250,9 @@ CHILDREN = {
     'map_inline_do': [('values', 'one'), ('variable', 'one'), ('bounds', 'one')],
     'map_c_reference': [('expression', 'one')],
     'map_c_dereference': [('expression', 'one')],
+    # aliases / overrides a back end or a later version may define for nodes whose walker is pymbolic's today
+    'map_inline_call': [('function', 'one'), ('parameters', 'many'), ('kw_parameters', 'dict-values')],
+    'map_call_with_kwargs': [('function', 'one'), ('parameters', 'many'), ('kw_parameters', 'dict-values')],
 }
 
 
@@ -263,6 +272,9 @@ class Walker:
         self.log.append(('post', expr))
 
 
+WALK = '/venv/lib/python3.12/site-packages/pymbolic/mapper/__init__.py'
+
+
 def walker_methods():
     import ast
     from pyvc import rewrite
@@ -272,7 +284,11 @@ def walker_methods():
 
 def spec_walker(method, presence):
     """presence: tuple of booleans, one per optional child: present / absent"""
-    fn = inline(MAP, 'LokiWalkMapper.' + method, {})
+    src_file, src_qual = MAP, 'LokiWalkMapper.' + method
+    if method.startswith('pymbolic:'):
+        method = method.split(':')[1]
+        src_file, src_qual = WALK, 'WalkMapper.' + method
+    fn = inline(src_file, src_qual, {'list': list})
     table = CHILDREN.get(method)
 
     def setup(spec):
@@ -300,10 +316,17 @@ def spec_walker(method, presence):
                 ts = (_Tok(attr + '0'), _Tok(attr + '1'))
                 setattr(expr, attr, ts)
                 want += list(ts)
+            elif how == 'dict-values':
+                ts = {'key_a': _Tok(attr + '_a'), 'key_b': _Tok(attr + '_b')}
+                setattr(expr, attr, ts)
+                want += list(ts.values())
             elif how == 'many-nonstr':
                 ts = (_Tok(attr + '0'), 'implied-do as plain string', _Tok(attr + '2'))
                 setattr(expr, attr, ts)
                 want += [ts[0], ts[2]]
+        if method in ('map_inline_call', 'map_call_with_kwargs'):
+            expr.arguments = expr.parameters            # InlineCall.arguments: the positional parameters
+            expr.kwarguments = tuple(expr.kw_parameters.items())
         veto = c.fresh(z3.BoolSort(), 'visit_vetoes')
         w = Walker(veto)
         env = {'w': w, 'expr': expr, 'want': want, 'veto': veto}
@@ -320,15 +343,15 @@ def spec_walker(method, presence):
         vetoed = [('visit', expr)]
         same = lambda a, b: len(a) == len(b) and all(x[0] == y[0] and x[1] is y[1] for x, y in zip(a, b))
         return [('visits-exactly-the-structural-children', z3.If(env['veto'], B(same(log, vetoed)), B(same(log, full))))]
-    sp = FunctionSpec(PROP, MAP, 'LokiWalkMapper.' + method, {}, setup, post, theory=T, lemmas=[],
+    sp = FunctionSpec(PROP, src_file, src_qual, {}, setup, post, theory=T, lemmas=[],
                       variant='optional children %s' % (presence,) if presence else None,
-                      decode=lambda env, m, r: {'function': 'LokiWalkMapper.' + method})
+                      decode=lambda env, m, r: {'function': src_qual})
     sp.fn_override = run
     import ast
     from pyvc import rewrite
-    src = rewrite.read_source(MAP)
-    nd, _ = rewrite.find_def(ast.parse(src), 'LokiWalkMapper.' + method)
-    sp.fn_info = {'file': MAP, 'qualname': 'LokiWalkMapper.' + method, 'sha': rewrite.sha(rewrite.func_text(src, nd)),
+    src = rewrite.read_source(src_file)
+    nd, _ = rewrite.find_def(ast.parse(src), src_qual)
+    sp.fn_info = {'file': src_file, 'qualname': src_qual, 'sha': rewrite.sha(rewrite.func_text(src, nd)),
                   'loops': {}, 'dropped': []}
     return sp
 
@@ -339,6 +362,8 @@ def specs(tier='quick'):
         out += [spec_visit_node('visit_Node', False, wr), spec_visit_node('visit_TypeDef', True, wr), spec_visit_tuple(wr),
                 spec_visit_object(wr), spec_scopes_visit_node(wr)]
     import itertools
+    # the walker of inline calls is pymbolic's map_call_with_kwargs (alias in LokiWalkMapper): verified from its source
+    out.append(spec_walker('pymbolic:map_call_with_kwargs', ()))
     for m in walker_methods():
         nopt = sum(1 for _, how in CHILDREN.get(m, []) if how in ('opt', 'optnone'))
         for pres in itertools.product((True, False), repeat=nopt):
